@@ -431,6 +431,124 @@ func strBytes(s string) string {
 	return listN(xs)
 }
 
+// strCallArgs returns, in source order, the string literals passed as argument idx to calls whose
+// selector path ends with callee inside fn.
+func strCallArgs(rel, fn, callee string, idx int) []string {
+	fd := findFunc(rel, fn)
+	if fd == nil {
+		return nil
+	}
+	var res []string
+	ast.Inspect(fd, func(n ast.Node) bool {
+		if c, ok := n.(*ast.CallExpr); ok && strings.HasSuffix(selName(c.Fun), callee) && len(c.Args) > idx {
+			if b, ok := c.Args[idx].(*ast.BasicLit); ok && b.Kind == token.STRING {
+				if s, err := strconv.Unquote(b.Value); err == nil {
+					res = append(res, s)
+				}
+			}
+		}
+		return true
+	})
+	return res
+}
+
+// strEqLits returns, in source order, the string literals on the right of `==` inside fn.
+func strEqLits(rel, fn string) []string {
+	fd := findFunc(rel, fn)
+	if fd == nil {
+		return nil
+	}
+	var res []string
+	ast.Inspect(fd, func(n ast.Node) bool {
+		if b, ok := n.(*ast.BinaryExpr); ok && b.Op == token.EQL {
+			if l, ok := b.Y.(*ast.BasicLit); ok && l.Kind == token.STRING {
+				if s, err := strconv.Unquote(l.Value); err == nil {
+					res = append(res, s)
+				}
+			}
+		}
+		return true
+	})
+	return res
+}
+
+// fmtParts splits a Sprintf format with exactly n "%s" verbs (and no other '%') into its n+1 literal parts.
+func fmtParts(f string, n int) ([]string, bool) {
+	parts := strings.Split(f, "%s")
+	if len(parts) != n+1 || strings.Contains(strings.Join(parts, ""), "%") {
+		return nil, false
+	}
+	return parts, true
+}
+
+// c17Facts: literals of envEntry/dumpScriptConf (lib/client/callback) and resolvconf.Run.
+func c17Facts(sb *strings.Builder) {
+	const cb, rc = "lib/client/callback/callback.go", "lib/resolvconf/resolvconf.go"
+	str := func(name, v, def string, ok bool) {
+		if !ok {
+			missing = append(missing, name)
+			v = def
+		}
+		fmt.Fprintf(sb, "Definition %s : list N := %s.\n", name, strBytes(v))
+	}
+	one := func(name string, xs []string, i int, def byte) {
+		v := def
+		if i < len(xs) && len(xs[i]) == 1 {
+			v = xs[i][0]
+		} else {
+			missing = append(missing, name)
+		}
+		fmt.Fprintf(sb, "Definition %s : N := %d.\n", name, v)
+	}
+	repl := strCallArgs(cb, "envEntry", "ReplaceAllString", 1)
+	str("gf_env_replacement", strings.Join(repl, ""), "_", len(repl) == 1)
+	ef := strCallArgs(cb, "envEntry", "Sprintf", 0)
+	parts, ok := []string(nil), false
+	if len(ef) == 1 {
+		parts, ok = fmtParts(ef[0], 2)
+		ok = ok && parts[2] == ""
+	}
+	if !ok {
+		parts = []string{"PSA_DHCPC_", "=", ""}
+	}
+	str("gf_env_prefix", parts[0], "PSA_DHCPC_", ok)
+	str("gf_env_sep", parts[1], "=", ok)
+	keys := strCallArgs(cb, "dumpScriptConf", "envEntry", 0)
+	if len(keys) != 7 {
+		missing = append(missing, "gf_env_keys")
+		keys = []string{"IPV4_ROUTER", "IPV4_ADDRESS", "NETMASK", "DOMAIN_NAME", "DNS_LIST", "MTU", "LEASE_SEC"}
+	}
+	ks := make([]string, len(keys))
+	for i, k := range keys {
+		ks[i] = strBytes(k)
+	}
+	fmt.Fprintf(sb, "Definition gf_env_keys : list (list N) := [%s].\n", strings.Join(ks, "; "))
+	ik := strCallArgs(cb, "Cbhandler", "envEntry", 0)
+	str("gf_env_interface_key", strings.Join(ik, ""), "INTERFACE", len(ik) == 1)
+	one("gf_env_dns_join", strCallArgs(cb, "dumpScriptConf", "Join", 1), 0, ',')
+	one("gf_resolv_kv_sep", strCallArgs(rc, "Run", "SplitN", 1), 0, '=')
+	one("gf_resolv_list_sep", strCallArgs(rc, "Run", "Split", 1), 0, ',')
+	eq := strEqLits(rc, "Run")
+	str("gf_resolv_key_domain", strings.Join(eq[:min(1, len(eq))], ""), "PSA_DHCPC_DOMAIN_NAME", len(eq) == 2)
+	str("gf_resolv_key_dns", strings.Join(eq[min(1, len(eq)):min(2, len(eq))], ""), "PSA_DHCPC_DNS_LIST", len(eq) == 2)
+	rf := strCallArgs(rc, "Run", "Sprintf", 0)
+	for i, nm := range []string{"search", "ns"} {
+		def := []string{"search ", "\n"}
+		if i == 1 {
+			def = []string{"nameserver ", "\n"}
+		}
+		p, ok := []string(nil), false
+		if len(rf) == 2 {
+			p, ok = fmtParts(rf[i], 1)
+		}
+		if !ok {
+			p = def
+		}
+		str("gf_resolv_"+nm+"_prefix", p[0], def[0], ok)
+		str("gf_resolv_"+nm+"_suffix", p[1], def[1], ok)
+	}
+}
+
 // ---- structural facts ----
 
 // every exported method of *IPDB starts with Lock(); defer Unlock()
@@ -693,6 +811,7 @@ func main() {
 		missing = append(missing, "gf_resolv_mode")
 		sb.WriteString("Definition gf_resolv_mode : N := 420.\n")
 	}
+	c17Facts(&sb)
 	sort.Strings(missing)
 	fmt.Fprintf(&sb, "\n(* sites not located in the current source (last known value used): %s *)\n", strings.Join(missing, " "))
 	fmt.Fprintf(&sb, "Definition gf_missing_count : N := %d.\n", len(missing))
